@@ -148,7 +148,8 @@ EXPORT errno_t _strremovews_s_chk(char *dest, rsize_t dmax,
             *orig_dest++ = *dest;
             *dest++ = ' ';
         }
-        *dest = '\0';
+        /* *dest is the terminator already: nothing to store, it may lie at
+           dest[dmax] */
     }
 
     /*
